@@ -58,21 +58,54 @@ def _ris_workflow(args):
 
 
 def _ris_finish(c, outcome, args, old):
-    marks = [e for e in c.trace if e.kind in ("mark_step_pending", "call.mark_step_pending")]
+    """C04: from a state without interrupted steps nothing is marked pending and nothing is reported.
+    C05: whatever the state, the steps handed to mark_step_pending are exactly the attached FAILED ones (formerly
+    FAILED or RUNNING), each once."""
+    if outcome[0] != "return":
+        return
+    marks = [e for e in c.trace if e.kind == "mark_step_pending"]
     reports = [e for e in c.trace if e.kind == "report"]
-    c.prove("nothing_marked_pending", tm.mk_bool(len(marks) == 0), kind="trace")
-    c.prove("nothing_reported", tm.mk_bool(len(reports) == 0), kind="trace")
+    quiet = no_interrupted_step(db_of(old.workflow))
+    c.prove("quiescent.nothing_marked_pending", tm.Implies(quiet, tm.mk_bool(len(marks) == 0)), kind="trace")
+    c.prove("quiescent.nothing_reported", tm.Implies(quiet, tm.mk_bool(len(reports) == 0)), kind="trace")
+
+
+def _ris_post(workflow, old):
+    db, db0 = db_of(workflow), db_of(old.workflow)
+    run, chk, fail, pend = (tm.mk_int(s.value) for s in (StepState.RUNNING, StepState.CHECKING, StepState.FAILED, StepState.PENDING))
+    return wrap_bool(tm.And(
+        # C04: a quiescent state is left as it is
+        tm.Implies(no_interrupted_step(db0), _forall(lambda k: tm.Eq(sstate(db, k), sstate(db0, k)))),
+        # C05: no step is left RUNNING or CHECKING, and a step changes state only out of RUNNING / CHECKING / FAILED
+        _forall(lambda k: tm.Implies(graphdb.exists(db, "step", k), tm.And(tm.Ne(sstate(db, k), run), tm.Ne(sstate(db, k), chk)))),
+        _forall(lambda k: tm.Implies(tm.And(graphdb.exists(db0, "step", k), tm.Ne(sstate(db, k), sstate(db0, k))),
+                                     tm.Or(*[tm.Eq(sstate(db0, k), x) for x in (run, chk, fail)],
+                                           tm.Eq(sstate(db, k), pend))))))
+
+
+def _ris_loop_inv(e):
+    """While the failed steps are marked pending: no RUNNING / CHECKING row exists."""
+    db, db0 = db_of(e.workflow), db_of(e.old.workflow)
+    run, chk, fail, pend = (tm.mk_int(s.value) for s in (StepState.RUNNING, StepState.CHECKING, StepState.FAILED, StepState.PENDING))
+    return [_forall(lambda k: tm.Implies(graphdb.exists(db, "step", k), tm.And(tm.Ne(sstate(db, k), run), tm.Ne(sstate(db, k), chk)))),
+            _forall(lambda k: tm.Implies(tm.And(graphdb.exists(db0, "step", k), tm.Ne(sstate(db, k), sstate(db0, k))),
+                                         tm.Or(*[tm.Eq(sstate(db0, k), x) for x in (run, chk, fail)], tm.Eq(sstate(db, k), pend)))),
+            _forall(lambda k: tm.Iff(graphdb.exists(db, "step", k), graphdb.exists(db0, "step", k))),
+            # there was something to reset: the loop is not entered from a quiescent state
+            tm.Not(no_interrupted_step(db0))]
 
 
 @contract("stepup/core/startup.py::reset_interrupted_steps", props=["C04", "C05"])
 class reset_interrupted_steps:
-    """From a state without interrupted steps the function changes no step state and marks nothing pending."""
+    """C04: from a state without interrupted steps the function changes no step state and marks nothing pending.
+    C05: afterwards no step is RUNNING or CHECKING; RUNNING steps were made FAILED and every attached FAILED step was
+    handed to mark_step_pending."""
 
     args = dict(workflow=_ris_workflow, reporter=ty.Make(Reporter))
-    entry = lambda workflow: wrap_bool(no_interrupted_step(db_of(workflow)))
-    ensures = lambda workflow, old: wrap_bool(_forall(lambda k: tm.Eq(sstate(db_of(workflow), k), sstate(db_of(old.workflow), k))))
+    ensures = _ris_post
     finish = _ris_finish
     modifies = []
+    loops = {0: LoopSpec(invariant=_ris_loop_inv, havoc=("workflow",), modifies={"workflow": ["db"]})}
 
 
 # ---------------------------------------------------------------- Executor._run_hash_job: unchanged hashes are not applied
